@@ -608,3 +608,223 @@ Proof.
   assert (R1 : rel0 sid h h1) by (rewrite (fst_eq _ _ _ H1); apply rel0_deliver_at).
   eapply rel0_trans; [exact R1|]. rewrite (fst_eq _ _ _ H2). apply IH.
 Qed.
+
+(* ------------------------------------------------------------------ functions that may create a session *)
+Record rel (sid : N) (h h' : hub) : Prop := {
+  r_next : h_nextsid h <= h_nextsid h';
+  (* a session that appears got an id above every id handed out before, and nothing queued if it has a connection *)
+  r_born : get_sess h sid = None -> forall s', get_sess h' sid = Some s' ->
+           h_nextsid h < sid <= h_nextsid h' /\ (s_conn s' <> None -> s_pending s' = []);
+  r_core : sid <= h_nextsid h -> forall s', get_sess h' sid = Some s' ->
+           (exists s, get_sess h sid = Some s /\ sessA s s') \/ sessB s';
+}.
+
+Lemma rel_of_rel0 sid h h' : rel0 sid h h' -> rel sid h h'.
+Proof.
+  intros [Hn Hc]. constructor.
+  - rewrite Hn. lia.
+  - intros Hd s' Hs'. destruct (Hc s' Hs') as [s [Hs _]]. congruence.
+  - intros _ s' Hs'. left. now apply Hc.
+Qed.
+Lemma rel_refl sid h : rel sid h h.
+Proof. apply rel_of_rel0, rel0_refl. Qed.
+
+Lemma rel_trans sid h1 h2 h3 : rel sid h1 h2 -> rel sid h2 h3 -> rel sid h1 h3.
+Proof.
+  intros [N1 B1 C1] [N2 B2 C2]. constructor.
+  - lia.
+  - intros Hd s3 H3.
+    assert (Hcase : (exists s2, get_sess h2 sid = Some s2) \/ get_sess h2 sid = None) by (destruct (get_sess h2 sid); eauto).
+    destruct Hcase as [[s2 H2]|H2].
+    + destruct (B1 Hd s2 H2) as [[Hlt Hle] Hq].
+      destruct (C2 Hle s3 H3) as [[s2' [H2' [Hc [l [Hp Hl]]]]]|[Hc Hp]].
+      * rewrite H2 in H2'. injection H2' as <-. split; [lia|]. intros Hne.
+        assert (Hne2 : s_conn s2 <> None) by congruence. rewrite Hp, (Hq Hne2), (Hl Hne2). reflexivity.
+      * split; [lia|]. intros _. exact Hp.
+    + destruct (B2 H2 s3 H3) as [[Hlt Hle] Hq]. split; [lia|exact Hq].
+  - intros Hle s3 H3. assert (Hle2 : sid <= h_nextsid h2) by lia.
+    destruct (C2 Hle2 s3 H3) as [[s2 [H2 A2]]|HB]; [|now right].
+    destruct (C1 Hle s2 H2) as [[s1 [H1 A1]]|[Hc Hp]].
+    + left. exists s1. split; [exact H1|]. eapply sessA_trans; eauto.
+    + right. destruct A2 as [Hc2 [l [Hp2 Hl]]]. split; [congruence|]. rewrite Hp2, Hp, (Hl Hc). reflexivity.
+Qed.
+
+Lemma next_id_gt h : h_nextsid h < next_id h.
+Proof. unfold next_id. lia. Qed.
+
+(* a new session under the next id *)
+Lemma rel_new sid h h' s0 :
+  h_sessions h' = aset (h_sessions h) (next_id h) s0 -> h_nextsid h' = next_id h ->
+  (s_conn s0 <> None -> s_pending s0 = []) -> rel sid h h'.
+Proof.
+  intros Hs Hn Hq. pose proof (next_id_gt h) as Hgt. constructor.
+  - lia.
+  - intros Hd s' Hs'. unfold get_sess in *. rewrite Hs, aget_aset in Hs'.
+    destruct (N.eqb_spec sid (next_id h)) as [->|Hne]; [|congruence].
+    injection Hs' as <-. split; [lia|exact Hq].
+  - intros Hle s' Hs'. unfold get_sess in *. rewrite Hs, aget_aset_other in Hs' by lia.
+    left. exists s'. split; [exact Hs'|apply sessA_refl].
+Qed.
+(* the id counter moves, no session changes *)
+Lemma rel_bump sid h h' : h_sessions h' = h_sessions h -> h_nextsid h <= h_nextsid h' -> rel sid h h'.
+Proof.
+  intros Hs Hn. constructor; [exact Hn| |]; unfold get_sess; rewrite Hs.
+  - intros Hd s' Hs'. congruence.
+  - intros _ s' Hs'. left. exists s'. split; [exact Hs'|apply sessA_refl].
+Qed.
+(* a live session is (re)attached with an empty queue *)
+Lemma rel_aset_B sid h h' x s' :
+  h_sessions h' = aset (h_sessions h) x s' -> h_nextsid h' = h_nextsid h -> live h x -> sessB s' -> rel sid h h'.
+Proof.
+  intros Hs Hn [sx Hx] HB. constructor.
+  - lia.
+  - intros Hd t Ht. unfold get_sess in *. rewrite Hs, aget_aset in Ht.
+    destruct (N.eqb_spec sid x) as [->|Hne]; congruence.
+  - intros _ t Ht. unfold get_sess in *. rewrite Hs, aget_aset in Ht.
+    destruct (N.eqb_spec sid x) as [->|Hne].
+    + injection Ht as <-. now right.
+    + left. exists t. split; [exact Ht|apply sessA_refl].
+Qed.
+
+Lemma rel_register sid h c cn b k u : rel sid h (fst (register h c cn b k u)).
+Proof.
+  unfold register. pose proof (next_id_gt h) as Hgt.
+  match goal with |- context [if ?cond then _ else _] => destruct cond end; cbn [fst].
+  - apply rel_bump; [reflexivity|]. cbn. lia.
+  - apply rel_new with (new_session b k u c).
+    + destruct (negb (is_internal k) && negb (N.eqb (limit_of h b) 0)); destruct (N.eqb u 0 && negb (is_internal k));
+        try reflexivity; destruct k as [|f d|]; try destruct d; reflexivity.
+    + destruct (negb (is_internal k) && negb (N.eqb (limit_of h b) 0)); destruct (N.eqb u 0 && negb (is_internal k));
+        try reflexivity; destruct k as [|f d|]; try destruct d; reflexivity.
+    + intros _. reflexivity.
+Qed.
+
+Lemma rel_do_hello sid h c cn hl : rel sid h (fst (do_hello h c cn hl)).
+Proof.
+  unfold do_hello.
+  assert (Hexp : forall hh, rel sid h hh -> rel sid h (set_conns hh (aset (h_conns hh) c (mkconn (c_addr cn) None true)))).
+  { intros hh R. eapply rel_trans; [exact R|]. apply rel_of_rel0. apply rel0_eq; reflexivity. }
+  pose proof (rel_refl sid h) as R0.
+  destruct hl as [b u rej|b tok f d|i].
+  - destruct (h_nb h <=? b); [cbn [fst]; now apply Hexp|]. destruct rej; [cbn [fst]; now apply Hexp|].
+    destruct (register h c cn b KClient u) as [h1 o1] eqn:Hr. cbn [fst]. rewrite (fst_eq _ _ _ Hr). apply rel_register.
+  - destruct (throttled h (c_addr cn) ACT_INTERNAL); [cbn [fst]; now apply Hexp|].
+    destruct (negb (N.eqb tok 0)).
+    { cbn [fst]. apply Hexp. apply rel_of_rel0, rel0_eq; reflexivity. }
+    destruct (h_nb h <=? b).
+    { cbn [fst]. apply Hexp. apply rel_of_rel0, rel0_eq; reflexivity. }
+    apply rel_register.
+  - destruct (throttled h (c_addr cn) ACT_RESUME); [exact R0|].
+    destruct i as [n|n|k|n]; try (cbn [fst]; apply rel_of_rel0, rel0_eq; reflexivity).
+    destruct (get_sess h n) as [s|] eqn:Hs; [|exact R0].
+    destruct (is_virtual (s_kind s)); [exact R0|].
+    match goal with |- context [let '(h1, outs1) := ?X in _] => destruct X as [h1 outs1] eqn:HP end.
+    assert (E1 : h_sessions h1 = h_sessions h /\ h_nextsid h1 = h_nextsid h).
+    { destruct (s_conn s) as [c'|]; [|injection HP as <- <-; auto].
+      destruct (N.eqb c' c); [injection HP as <- <-; auto|].
+      rewrite (fst_eq _ _ _ HP). destruct (aget (h_conns h) c') as [cn'|] eqn:Hc'.
+      - rewrite (send_bye_detached _ c' (mkconn (c_addr cn') None (c_expect cn')) B_session_resumed);
+          [split; reflexivity|hsimpl; apply aget_aset_same|reflexivity].
+      - unfold send_conn. rewrite Hc'. split; reflexivity. }
+    destruct E1 as [Es En]. cbn [fst].
+    apply (rel_aset_B sid h _ n (sess_pending (sess_conn s (Some c)) [])).
+    + transitivity (aset (h_sessions h1) n (sess_pending (sess_conn s (Some c)) [])); [reflexivity|now rewrite Es].
+    + transitivity (h_nextsid h1); [reflexivity|exact En].
+    + eexists; exact Hs.
+    + split; [discriminate|reflexivity].
+Qed.
+
+Lemma rel_do_internal sid h c x s q : get_sess h x = Some s -> rel sid h (fst (do_internal h c x s q)).
+Proof.
+  intros Hs. unfold do_internal.
+  assert (Hpub : forall hh sj m, rel0 sid h hh -> rel0 sid h (publish hh sj m)).
+  { intros hh sj m R. eapply rel0_trans; [exact R|apply rel0_publish]. }
+  assert (Hinc : forall hh k y on, rel0 sid h hh -> rel0 sid h (set_incall hh k y on)).
+  { intros hh k y on R. eapply rel0_trans; [exact R|apply rel0_set_incall]. }
+  destruct q as [v rn user flags incall|v rn flags incall|v rn|ic].
+  - (* add *)
+    set (k := (s_backend s, rn)). destruct (room_of h k) as [r|]; [|apply rel_refl].
+    set (vs := next_id h). set (h0 := set_nextsid h vs).
+    match goal with |- context [mksess (s_backend s) (KVirtual x v) user (Some k) ?rsv None None [] [] 0 ?ic ?fl [] [] [] 0] =>
+      set (vsess := mksess (s_backend s) (KVirtual x v) user (Some k) rsv None None [] [] 0 ic fl [] [] [] 0) end.
+    set (r' := mkroom (nadd vs (r_members r)) (r_incall r) (r_sessdata r) (r_transient r) (r_props r)).
+    set (h1 := put_sess (set_rooms h0 (pset (h_rooms h0) k r')) vs vsess).
+    set (h2 := set_vtable h1 (pset (h_vtable h1) (x, v) vs)).
+    assert (R2 : rel sid h h2).
+    { apply rel_new with vsess; [reflexivity|reflexivity|]. intros Hne. exfalso. apply Hne. reflexivity. }
+    match goal with |- context [rs_set h2 vs ?y] => set (h5 := rs_set h2 vs y) end.
+    assert (R5 : rel sid h h5) by (eapply rel_trans; [exact R2|apply rel_of_rel0, rel0_rs_set]).
+    match goal with |- context [let '(h10, outs10) := match ?pvx with Some _ => _ | None => _ end in _] => destruct pvx as [pv|] end.
+    + match goal with |- context [close_one ?hh pv] => set (h9 := hh) end.
+      assert (R9 : rel sid h h9).
+      { eapply rel_trans; [exact R5|]. apply rel_of_rel0. unfold h9. apply rel0_eq; destruct (N.eqb _ 0); reflexivity. }
+      destruct (close_one h9 pv) as [h10 o10] eqn:H10. cbn [fst]. rewrite (fst_eq _ _ _ H10).
+      eapply rel_trans; [exact R9|apply rel_of_rel0, rel0_close_one].
+    + cbn [fst]. eapply rel_trans; [exact R5|]. apply rel_of_rel0. apply rel0_eq; destruct (N.eqb _ 0); reflexivity.
+  - (* update *)
+    set (k := (s_backend s, rn)).
+    destruct (room_of h k) as [r|]; [|apply rel_refl]. destruct (pget (h_vtable h) (x, v)) as [vs|]; [|apply rel_refl].
+    destruct (get_sess h vs) as [t|] eqn:Ht; [|apply rel_refl]. cbn [fst]. apply rel_of_rel0.
+    match goal with |- context [put_sess h vs ?t1] => set (h1 := put_sess h vs t1) end.
+    assert (R1 : rel0 sid h h1) by (apply rel0_put with t; [exact Ht|now apply sessA_same]).
+    repeat match goal with |- context [if ?cnd then _ else _] => destruct cnd end;
+      repeat first [apply Hpub | apply Hinc]; exact R1.
+  - (* remove *)
+    set (k := (s_backend s, rn)).
+    destruct (room_of h k) as [r|]; [|apply rel_refl]. destruct (pget (h_vtable h) (x, v)) as [vs|]; [|apply rel_refl].
+    apply rel_of_rel0. eapply rel0_trans; [|apply rel0_close_one]. apply rel0_eq; reflexivity.
+  - (* in-call flags of the internal client itself *)
+    destruct (N.eqb ic (s_incall s)); [apply rel_refl|]. apply rel_of_rel0.
+    match goal with |- context [put_sess h x ?t1] => set (h1 := put_sess h x t1) end.
+    assert (R1 : rel0 sid h h1) by (apply rel0_put with s; [exact Hs|now apply sessA_same]).
+    destruct (s_room s) as [k|]; [|exact R1].
+    destruct (N.testbit ic 0); [cbn [fst]; apply Hpub; now apply Hinc|].
+    destruct (leave_call (set_incall h1 k x false) x) as [h2 o2] eqn:H2. cbn [fst]. apply Hpub.
+    rewrite (fst_eq _ _ _ H2). eapply rel0_trans; [apply Hinc; exact R1|apply rel0_leave_call].
+Qed.
+
+(* every op except the cut of a connection *)
+Lemma rel_step sid h o : (forall c, o <> ODrop c) -> rel sid h (fst (step h o)).
+Proof.
+  intros Hnd.
+  assert (Hws : forall c (f : conn -> N -> session -> hub * list out),
+            (forall cn x s, aget (h_conns h) c = Some cn -> get_sess h x = Some s -> rel sid h (fst (f cn x s))) ->
+            rel sid h (fst (with_session h c f))).
+  { intros c f Hf. unfold with_session. destruct (aget (h_conns h) c) as [cn|] eqn:Hc; [|apply rel_refl].
+    destruct (c_sess cn) as [x|]; [|apply rel_refl]. destruct (get_sess h x) as [s|] eqn:Hs; [|apply rel_refl]. eauto. }
+  pose proof (rel_refl sid h) as R0.
+  destruct o as [c addr|c hl|c rn rs rep|c to tag|c to tag|c|c|secs|b signas room q|c q|c to mk stream media|tok ok|c kindn key val|pos]; cbn [step].
+  - destruct (aget (h_conns h) c); [exact R0|]. cbn [fst]. apply rel_of_rel0, rel0_eq; reflexivity.
+  - destruct (aget (h_conns h) c) as [cn|]; [|exact R0]. destruct (c_sess cn); [exact R0|].
+    eapply rel_trans; [|apply rel_do_hello]. apply rel_of_rel0, rel0_eq; reflexivity.
+  - apply Hws. intros cn x s Hc Hs. apply rel_of_rel0.
+    destruct (do_join h c x s rn rs rep) as [h1 o1] eqn:H1.
+    assert (R1 : rel0 sid h h1) by (rewrite (fst_eq _ _ _ H1); now apply rel0_do_join).
+    destruct rep as [[pm|] su|code]; try exact R1.
+    destruct (get_sess h1 x) as [s1|]; [|exact R1].
+    match goal with |- context [if ?cnd then _ else _] => destruct cnd end; [|exact R1].
+    destruct (revoke h1 x) as [h2 o2] eqn:H2. cbn [fst]. rewrite (fst_eq _ _ _ H2).
+    eapply rel0_trans; [exact R1|apply rel0_revoke].
+  - apply Hws. intros cn x s Hc Hs. apply rel_of_rel0, rel0_do_message.
+  - apply Hws. intros cn x s Hc Hs. destruct (allowed_control s); [apply rel_of_rel0, rel0_do_message|exact R0].
+  - destruct (aget (h_conns h) c) as [cn|]; [|exact R0]. destruct (c_sess cn); [apply rel_of_rel0, rel0_send_conn|exact R0].
+  - exfalso. eapply Hnd; reflexivity.
+  - apply rel_of_rel0, rel0_do_tick.
+  - destruct (negb (N.eqb b signas) || (h_nb h <=? b)); [exact R0|]. apply rel_of_rel0, rel0_do_api.
+  - apply Hws. intros cn x s Hc Hs. destruct (is_internal (s_kind s)); [now apply rel_do_internal|exact R0].
+  - apply Hws. intros cn x s Hc Hs. apply rel_of_rel0. now apply rel0_do_media.
+  - apply rel_of_rel0, rel0_do_mcudone.
+  - (* transient data *)
+    apply Hws. intros cn x s Hc Hs. apply rel_of_rel0. destruct (s_room s) as [k|]; [|apply rel0_refl].
+    destruct (negb (allowed_transient s)); [apply rel0_refl|]. destruct (room_of h k) as [r|]; [|apply rel0_refl].
+    assert (Hupd : forall tr, rel0 sid h (set_rooms h (pset (h_rooms h) k (mkroom (r_members r) (r_incall r) (r_sessdata r) tr (r_props r)))))
+      by (intros tr; apply rel0_eq; reflexivity).
+    destruct (N.eqb kindn 0).
+    + destruct (aget (r_transient r) key) as [v|].
+      * destruct (N.eqb v val); [apply rel0_refl|]. eapply rel0_trans; [apply Hupd|].
+        apply rel0_fold_sessions. intros hh y. apply rel0_send_session.
+      * eapply rel0_trans; [apply Hupd|]. apply rel0_fold_sessions. intros hh y. apply rel0_send_session.
+    + destruct (aget (r_transient r) key); [|apply rel0_refl]. eapply rel0_trans; [apply Hupd|].
+      apply rel0_fold_sessions. intros hh y. apply rel0_send_session.
+  - apply rel_of_rel0, rel0_deliver_at.
+Qed.
